@@ -281,7 +281,7 @@ class FX:
     MAX_INLINE = 6
 
     def __init__(self, ctx, rel, cls=None, func=None, entries=("__init__", "do_finalize"),
-                 bind=None, self_name="self", extra_mods=(), inline_classes=()):
+                 bind=None, self_name="self", extra_mods=(), inline_classes=(), no_inline=()):
         self.ctx = ctx
         self.mod = ctx.mod(rel)
         self.rel = rel
@@ -292,6 +292,8 @@ class FX:
             if m not in self.extra_mods and m is not self.mod:
                 self.extra_mods.append(m)
         self.inline_classes = set(inline_classes)
+        self.no_inline = set(no_inline)
+        self.entry_returns = {}
         self.assigns = []
         self.trans = []
         self.insts = []
@@ -323,7 +325,7 @@ class FX:
                 self._bind_params(fn, env, [], {}, is_method=True, symbolic=True)
                 if bind:
                     env.update(bind)
-                self._run_function(fn, env)
+                self.entry_returns[e] = self._run_function(fn, env)
         else:
             fn = self.mod.func(func)
             env = {}
@@ -1027,7 +1029,7 @@ class FX:
                 if f.id in m.functions:
                     return self._inline(Closure(m.functions[f.id], {}), inner, env, is_method=False)
         if isinstance(f, ast.Attribute) and _is_name(f.value, "self") and self.cls_name and \
-                not isinstance(env.get("self"), ast.AST):
+                not isinstance(env.get("self"), ast.AST) and f.attr not in self.no_inline:
             m = self._find_method(f.attr)
             if m is not None and self.depth < self.MAX_INLINE:
                 return self._inline(Closure(m[0], {}), inner, env, is_method=True)
@@ -1637,6 +1639,14 @@ class FX:
                    pyguards=list(self.pyguards) + list(pyextra), loops=list(loops), order=self.order, node=node,
                    via=via, kind=kind, fx=self)
         self.assigns.append(a)
+
+    def flatten_value(self, val, domain):
+        """Flatten a statement-valued Python value (e.g. the list returned by a builder method) into
+        Assign records of pseudo-domain `domain`; returns the new records."""
+        n0 = len(self.assigns)
+        self.order += 1
+        self._flatten(self._stmts_of_value(val, None), domain, [], None, [], None)
+        return self.assigns[n0:]
 
     # ------------------------------------------------------------------ queries
     def find(self, domain=None, target=None, prefix=None, kind=None, state=None, pred=None):
